@@ -256,6 +256,11 @@ class Exec:
                 return g[e.id]
         if e.id in self.builtins:
             return self.builtins[e.id]
+        hook = getattr(self, 'unresolved_hook', None)
+        if hook is not None:
+            r = hook(e.id)
+            if r is not NOTHANDLED:
+                return r
         raise Unsupported(f'unresolved name {e.id!r}')
 
     def e_NamedExpr(self, e, env):
